@@ -429,170 +429,203 @@ Proof.
   replace (0 + f4_maxsz ip_mtu) with (f4_maxsz ip_mtu) by lia. exact Ht.
 Qed.
 
+(* a call of dispatch_ip that finds the fragmenter busy does not start a train *)
+Lemma dispatch_ip_busy_result ip_mtu ident fr P :
+  fr_finished fr = false -> snd (f4_dispatch_ip ip_mtu ident fr P) <> DipFragStarted.
+Proof.
+  intros H. unfold f4_dispatch_ip. cbv zeta. rewrite H.
+  destruct (f4_hdr + zlen P >? ip_mtu); [|discriminate].
+  destruct (zlen (fr_buffer fr) <? f4_hdr + zlen P); discriminate.
+Qed.
+
+(* a correct train whose frames all go to the link-layer address [hw] *)
+Definition ltrain_ok (ip_mtu ident hw off : Z) (t : list frame) (data : list Z) : Prop :=
+  Forall (fun f => fst f = hw) t /\ train_ok ip_mtu ident off (map snd t) data.
+
+Lemma filter_frames_pair hw out :
+  filter frame_is_fragment (map (pair hw) out) = map (pair hw) (filter p_is_fragment out).
+Proof.
+  induction out as [|p out IH]; [reflexivity|]. cbn [map filter]. unfold frame_is_fragment at 1. cbn [snd].
+  destruct (p_is_fragment p); cbn [map]; rewrite IH; reflexivity.
+Qed.
+
 Section EgressOrder.
 Variable ip_mtu : Z.
 Hypothesis Hmtu : f4_hdr + 8 <= ip_mtu.
-(* every datagram handed to the stack (by a socket or as an ingress-triggered reply) *)
-Variable sub : list (list Z).
+(* every datagram handed to the stack (by a socket or as an ingress-triggered reply), with the
+   link-layer address resolved for its next hop *)
+Variable sub : list dgram.
 
-(* a complete fragment train of one of the submitted datagrams *)
-Definition is_train (t : list ip4pkt) : Prop :=
-  exists ident P, In P sub /\ train_ok ip_mtu ident 0 t P.
+(* a complete fragment train of one of the submitted datagrams, every frame addressed to the
+   link-layer address resolved for that datagram *)
+Definition is_train (t : list frame) : Prop :=
+  exists ident d, In d sub /\ ltrain_ok ip_mtu ident (fst d) 0 t (snd d).
 
-(* [cur] = the fragments of the datagram in the fragmenter that are already on the wire:
-   whatever correct tail follows, the whole is a correct train of that datagram *)
-Definition cur_ok (fr : fragmenter) (cur : list ip4pkt) : Prop :=
+(* [cur] = the frames of the datagram in the fragmenter that are already on the wire; [hwst] =
+   the address stored in the fragmenter: whatever correct tail follows, the whole is a correct
+   train of that datagram, and the stored address is the datagram's *)
+Definition cur_ok (fr : fragmenter) (hwst : Z) (cur : list frame) : Prop :=
   (fr_finished fr = true /\ cur = []) \/
-  (exists P off, In P sub /\ fr_progress fr P off /\
-     forall tail, train_ok ip_mtu (fr_ident fr) off tail (skipn (Z.to_nat off) P) ->
-                  train_ok ip_mtu (fr_ident fr) 0 (cur ++ tail) P).
+  (exists d off, In d sub /\ hwst = fst d /\ fr_progress fr (snd d) off /\
+     Forall (fun f => fst f = hwst) cur /\
+     forall tail, train_ok ip_mtu (fr_ident fr) off tail (skipn (Z.to_nat off) (snd d)) ->
+                  train_ok ip_mtu (fr_ident fr) 0 (map snd cur ++ tail) (snd d)).
 
-(* [hist] = all fragments emitted so far, in wire order *)
-Definition stream_ok (fr : fragmenter) (hist : list ip4pkt) : Prop :=
-  exists done cur, hist = concat done ++ cur /\ Forall is_train done /\ cur_ok fr cur.
+(* [hist] = all fragment frames emitted so far, in wire order *)
+Definition stream_ok (fr : fragmenter) (hwst : Z) (hist : list frame) : Prop :=
+  exists done cur, hist = concat done ++ cur /\ Forall is_train done /\ cur_ok fr hwst cur.
 
-Lemma dispatch_ip_stream ident fr P hist :
-  stream_ok fr hist -> In P sub ->
-  let '(fr', out, _) := f4_dispatch_ip ip_mtu ident fr P in
-  stream_ok fr' (hist ++ filter p_is_fragment out).
+Lemma dispatch_ip_stream ident fr hwst d hist :
+  stream_ok fr hwst hist -> In d sub ->
+  let '(fr', hw', out, _) := eg_dispatch_ip ip_mtu ident fr hwst d in
+  stream_ok fr' hw' (hist ++ filter frame_is_fragment out).
 Proof.
-  intros Hs HP.
+  intros Hs HP. unfold eg_dispatch_ip. destruct d as (hw, P). cbn [fst snd] in *.
   destruct (Z_le_gt_dec (f4_hdr + zlen P) ip_mtu) as [Hsmall | Hbig].
   { rewrite dispatch_ip_small by exact Hsmall. cbn. rewrite app_nil_r. exact Hs. }
   destruct (Z_lt_ge_dec (zlen (fr_buffer fr)) (f4_hdr + zlen P)) as [Htoo | Hfit].
   { rewrite dispatch_ip_too_big by lia. cbn. rewrite app_nil_r. exact Hs. }
   destruct (fr_finished fr) eqn:Hfin.
   - destruct (dispatch_ip_start ip_mtu ident fr P Hmtu Hfin ltac:(lia) ltac:(lia)) as (fr' & Hd & Hp & Hid & _).
-    rewrite Hd. cbn [filter p_is_fragment p_mf p_offset orb].
+    rewrite Hd. cbn [map filter frame_is_fragment snd p_is_fragment p_mf p_offset orb].
     destruct Hs as (done & cur & Hh & Hdone & Hcur).
     assert (cur = []) as ->.
-    { destruct Hcur as [(_ & Hc) | (P0 & off0 & _ & Hp0 & _)]; [exact Hc|].
+    { destruct Hcur as [(_ & Hc) | (d0 & off0 & _ & _ & Hp0 & _)]; [exact Hc|].
       rewrite (progress_not_finished _ _ _ Hp0) in Hfin. discriminate. }
-    exists done, [mkPkt ident 0 true (firstn (Z.to_nat (f4_maxsz ip_mtu)) P)].
+    exists done, [(hw, mkPkt ident 0 true (firstn (Z.to_nat (f4_maxsz ip_mtu)) P))].
     split; [rewrite Hh, app_nil_r; reflexivity|]. split; [exact Hdone|].
-    right. exists P, (f4_maxsz ip_mtu). split; [exact HP|]. split; [exact Hp|].
-    intros tail Ht. rewrite Hid in *. cbn [app].
+    right. exists (hw, P), (f4_maxsz ip_mtu). cbn [fst snd].
+    split; [exact HP|]. split; [reflexivity|]. split; [exact Hp|].
+    split; [constructor; [reflexivity | constructor]|].
+    intros tail Ht. rewrite Hid in *. cbn [map snd app].
     apply first_fragment_extends; [exact Hmtu | destruct Hp as (_ & _ & _ & _ & _ & _ & H & _); exact H | exact Ht].
   - pose proof (dispatch_ip_busy_preserves ip_mtu ident fr P Hfin) as H1.
     pose proof (dispatch_ip_busy_emits_no_fragment ip_mtu ident fr P Hfin) as H2.
+    pose proof (dispatch_ip_busy_result ip_mtu ident fr P Hfin) as H3.
     destruct (f4_dispatch_ip ip_mtu ident fr P) as ((fr', out), r). cbn [fst snd] in *.
-    subst fr'. rewrite H2, app_nil_r. exact Hs.
+    subst fr'. rewrite filter_frames_pair, H2. cbn [map]. rewrite app_nil_r.
+    destruct r; try exact Hs. congruence.
 Qed.
 
-Lemma ipv4_egress_stream can fr hist :
-  stream_ok fr hist ->
-  let '(fr', out) := f4_ipv4_egress ip_mtu can fr in
-  stream_ok fr' (hist ++ filter p_is_fragment out).
+Lemma ipv4_egress_stream can fr hwst hist :
+  stream_ok fr hwst hist ->
+  let '(fr', hw', out) := eg_ipv4_egress ip_mtu can fr hwst in
+  stream_ok fr' hw' (hist ++ filter frame_is_fragment out).
 Proof.
-  intros (done & cur & Hh & Hdone & Hcur). unfold f4_ipv4_egress.
+  intros (done & cur & Hh & Hdone & Hcur). unfold eg_ipv4_egress, f4_ipv4_egress.
   destruct (fr_finished fr) eqn:Hfin.
   - (* finished: reset, nothing to send *)
     assert (cur = []) as ->.
-    { destruct Hcur as [(_ & Hc) | (P0 & off0 & _ & Hp0 & _)]; [exact Hc|].
+    { destruct Hcur as [(_ & Hc) | (d0 & off0 & _ & _ & Hp0 & _)]; [exact Hc|].
       rewrite (progress_not_finished _ _ _ Hp0) in Hfin. discriminate. }
     assert (He : fr_is_empty (fr_reset fr) = true) by reflexivity. rewrite He.
-    cbn [filter]. rewrite app_nil_r. exists done, []. split; [exact Hh|]. split; [exact Hdone|].
+    cbn [map filter]. rewrite app_nil_r. exists done, []. split; [exact Hh|]. split; [exact Hdone|].
     left. split; reflexivity.
-  - destruct Hcur as [(Hc & _) | (P & off & HP & Hp & Hk)]; [congruence|].
+  - destruct Hcur as [(Hc & _) | (d & off & HP & Hhw & Hp & Hall & Hk)]; [congruence|].
     pose proof Hp as (_ & Hpl & Hsb & _ & Ho0 & _ & Holt & _).
     assert (Hne : fr_is_empty fr = false).
-    { unfold fr_is_empty. rewrite Hpl. pose proof (zlen_nonneg P). unfold f4_hdr, wipv4_HEADER_LEN. lia. }
+    { unfold fr_is_empty. rewrite Hpl. pose proof (zlen_nonneg (snd d)). unfold f4_hdr, wipv4_HEADER_LEN. lia. }
     rewrite Hne. replace (fr_packet_len fr >? fr_sent_bytes fr) with true by lia.
     destruct can; cbn [andb].
-    + pose proof (frag_step_train ip_mtu fr P off Hmtu Hp) as Hs.
+    + pose proof (frag_step_train ip_mtu fr (snd d) off Hmtu Hp) as Hs.
       destruct (f4_dispatch_ipv4_frag ip_mtu fr) as (fr', p).
       destruct Hs as (Hisf & Hid & _ & [(Hle & Hfin' & Hlast) | (Hgt & Hp' & Hmore)]).
-      * cbn [filter]. rewrite Hisf.
-        exists (done ++ [cur ++ [p]]), []. split.
+      * cbn [map filter]. unfold frame_is_fragment at 1. cbn [snd]. rewrite Hisf.
+        exists (done ++ [cur ++ [(hwst, p)]]), []. split.
         { rewrite Hh, concat_app. cbn [concat]. rewrite !app_nil_r, app_assoc. reflexivity. }
         split.
         { apply Forall_app. split; [exact Hdone|]. constructor; [|constructor].
-          exists (fr_ident fr), P. split; [exact HP | apply Hk; exact Hlast]. }
+          exists (fr_ident fr), d. split; [exact HP|]. split.
+          - rewrite <- Hhw. apply Forall_app. split; [exact Hall | constructor; [reflexivity | constructor]].
+          - rewrite map_app. cbn [map snd]. apply Hk; exact Hlast. }
         left. split; [exact Hfin' | reflexivity].
-      * cbn [filter]. rewrite Hisf.
-        exists done, (cur ++ [p]). split; [rewrite Hh, app_assoc; reflexivity|].
-        split; [exact Hdone|]. right. exists P, (off + f4_maxsz ip_mtu).
-        split; [exact HP|]. split; [exact Hp'|]. intros tail Ht. rewrite Hid in *.
-        rewrite <- app_assoc. cbn [app]. apply Hk. apply Hmore. exact Ht.
-    + cbn. rewrite app_nil_r. exists done, cur. split; [exact Hh|]. split; [exact Hdone|].
-      right. exists P, off. split; [exact HP|]. split; [exact Hp | exact Hk].
+      * cbn [map filter]. unfold frame_is_fragment at 1. cbn [snd]. rewrite Hisf.
+        exists done, (cur ++ [(hwst, p)]). split; [rewrite Hh, app_assoc; reflexivity|].
+        split; [exact Hdone|]. right. exists d, (off + f4_maxsz ip_mtu).
+        split; [exact HP|]. split; [exact Hhw|]. split; [exact Hp'|].
+        split; [apply Forall_app; split; [exact Hall | constructor; [reflexivity | constructor]]|].
+        intros tail Ht. rewrite Hid in *.
+        rewrite map_app, <- app_assoc. cbn [map snd app]. apply Hk. apply Hmore. exact Ht.
+    + cbn [map filter]. rewrite app_nil_r. exists done, cur. split; [exact Hh|]. split; [exact Hdone|].
+      right. exists d, off. split; [exact HP|]. split; [exact Hhw|]. split; [exact Hp|]. split; [exact Hall | exact Hk].
 Qed.
 
-Definition queues_in_sub (socks : list (list (list Z))) : Prop :=
-  Forall (Forall (fun P => In P sub)) socks.
+Definition queues_in_sub (socks : list (list dgram)) : Prop :=
+  Forall (Forall (fun d => In d sub)) socks.
 
-Lemma ingress_stream : forall rx fr id b hist,
-  stream_ok fr hist -> Forall (fun P => In P sub) rx ->
-  let '(fr', _, _, rx', out) := eg_ingress ip_mtu fr id b rx in
-  stream_ok fr' (hist ++ filter p_is_fragment out) /\ Forall (fun P => In P sub) rx'.
+Lemma ingress_stream : forall rx fr hwst id b hist,
+  stream_ok fr hwst hist -> Forall (fun d => In d sub) rx ->
+  let '(fr', hw', _, _, rx', out) := eg_ingress ip_mtu fr hwst id b rx in
+  stream_ok fr' hw' (hist ++ filter frame_is_fragment out) /\ Forall (fun d => In d sub) rx'.
 Proof.
-  induction rx as [|reply rest IH]; intros fr id b hist Hs Hrx; cbn [eg_ingress].
+  induction rx as [|reply rest IH]; intros fr hwst id b hist Hs Hrx; cbn [eg_ingress].
   - cbn. rewrite app_nil_r. split; [exact Hs | constructor].
   - destruct (bud_has b).
     + inversion Hrx as [|? ? Hr Hrest]; subst.
-      pose proof (dispatch_ip_stream id fr reply hist Hs Hr) as H1.
-      destruct (f4_dispatch_ip ip_mtu id fr reply) as ((fr1, out), r).
-      specialize (IH fr1 (eg_next_id id) (match out with [] => b | _ :: _ => bud_dec b end)
-                     (hist ++ filter p_is_fragment out) H1 Hrest).
-      destruct (eg_ingress ip_mtu fr1 (eg_next_id id) _ rest) as ((((fr2, id2), b2), rx2), out2).
+      pose proof (dispatch_ip_stream id fr hwst reply hist Hs Hr) as H1.
+      destruct (eg_dispatch_ip ip_mtu id fr hwst reply) as (((fr1, hw1), out), r).
+      specialize (IH fr1 hw1 (eg_next_id id) (match out with [] => b | _ :: _ => bud_dec b end)
+                     (hist ++ filter frame_is_fragment out) H1 Hrest).
+      destruct (eg_ingress ip_mtu fr1 hw1 (eg_next_id id) _ rest) as (((((fr2, hw2), id2), b2), rx2), out2).
       destruct IH as (IH1 & IH2). split; [|exact IH2].
       rewrite filter_app, app_assoc. exact IH1.
     + cbn. rewrite app_nil_r. split; [exact Hs | exact Hrx].
 Qed.
 
-Lemma socket_egress_stream : forall socks fr id b hist,
-  stream_ok fr hist -> queues_in_sub socks ->
-  let '(fr', _, _, socks', out, _) := eg_socket_egress ip_mtu fr id b socks in
-  stream_ok fr' (hist ++ filter p_is_fragment out) /\ queues_in_sub socks'.
+Lemma socket_egress_stream : forall socks fr hwst id b hist,
+  stream_ok fr hwst hist -> queues_in_sub socks ->
+  let '(fr', hw', _, _, socks', out, _) := eg_socket_egress ip_mtu fr hwst id b socks in
+  stream_ok fr' hw' (hist ++ filter frame_is_fragment out) /\ queues_in_sub socks'.
 Proof.
-  induction socks as [|q rest IH]; intros fr id b hist Hs Hq; cbn [eg_socket_egress].
+  induction socks as [|q rest IH]; intros fr hwst id b hist Hs Hq; cbn [eg_socket_egress].
   - cbn. rewrite app_nil_r. split; [exact Hs | constructor].
   - inversion Hq as [|? ? Hq1 Hqrest]; subst.
-    destruct q as [|payload q'].
-    + specialize (IH fr id b hist Hs Hqrest).
-      destruct (eg_socket_egress ip_mtu fr id b rest) as (((((fr2, id2), b2), rest2), out2), ch).
+    destruct q as [|d q'].
+    + specialize (IH fr hwst id b hist Hs Hqrest).
+      destruct (eg_socket_egress ip_mtu fr hwst id b rest) as ((((((fr2, hw2), id2), b2), rest2), out2), ch).
       destruct IH as (IH1 & IH2). split; [exact IH1 | constructor; assumption].
-    + destruct (eg_needs_frag ip_mtu payload && negb (fr_finished fr)).
-      * specialize (IH fr id b hist Hs Hqrest).
-        destruct (eg_socket_egress ip_mtu fr id b rest) as (((((fr2, id2), b2), rest2), out2), ch).
+    + destruct (eg_needs_frag ip_mtu (snd d) && negb (fr_finished fr)).
+      * specialize (IH fr hwst id b hist Hs Hqrest).
+        destruct (eg_socket_egress ip_mtu fr hwst id b rest) as ((((((fr2, hw2), id2), b2), rest2), out2), ch).
         destruct IH as (IH1 & IH2). split; [exact IH1 | constructor; assumption].
       * destruct (negb (bud_has b)).
         -- cbn. rewrite app_nil_r. split; [exact Hs | exact Hq].
         -- inversion Hq1 as [|? ? Hp Hq']; subst.
-           pose proof (dispatch_ip_stream id fr payload hist Hs Hp) as H1.
-           destruct (f4_dispatch_ip ip_mtu id fr payload) as ((fr1, out), r).
-           specialize (IH fr1 (eg_next_id id) (match out with [] => b | _ :: _ => bud_dec b end)
-                          (hist ++ filter p_is_fragment out) H1 Hqrest).
-           destruct (eg_socket_egress ip_mtu fr1 (eg_next_id id) _ rest)
-             as (((((fr2, id2), b2), rest2), out2), ch).
+           pose proof (dispatch_ip_stream id fr hwst d hist Hs Hp) as H1.
+           destruct (eg_dispatch_ip ip_mtu id fr hwst d) as (((fr1, hw1), out), r).
+           specialize (IH fr1 hw1 (eg_next_id id) (match out with [] => b | _ :: _ => bud_dec b end)
+                          (hist ++ filter frame_is_fragment out) H1 Hqrest).
+           destruct (eg_socket_egress ip_mtu fr1 hw1 (eg_next_id id) _ rest)
+             as ((((((fr2, hw2), id2), b2), rest2), out2), ch).
            destruct IH as (IH1 & IH2). split; [|constructor; assumption].
            rewrite filter_app, app_assoc. exact IH1.
 Qed.
 
-(* invariant of the whole interface state together with the fragments emitted so far *)
-Definition eg_inv (st : egress) (hist : list ip4pkt) : Prop :=
-  stream_ok (eg_fr st) hist /\ queues_in_sub (eg_socks st) /\ Forall (fun P => In P sub) (eg_rx st).
+(* invariant of the whole interface state together with the fragment frames emitted so far *)
+Definition eg_inv (st : egress) (hist : list frame) : Prop :=
+  stream_ok (eg_fr st) (eg_hw st) hist /\ queues_in_sub (eg_socks st) /\
+  Forall (fun d => In d sub) (eg_rx st).
 
 Lemma poll_egress_inv st b hist :
   eg_inv st hist ->
   let '(st', _, out, _) := eg_poll_egress ip_mtu st b in
-  eg_inv st' (hist ++ filter p_is_fragment out).
+  eg_inv st' (hist ++ filter frame_is_fragment out).
 Proof.
   intros (Hs & Hq & Hr). unfold eg_poll_egress.
-  pose proof (ipv4_egress_stream (bud_has b) (eg_fr st) hist Hs) as H1.
-  destruct (f4_ipv4_egress ip_mtu (bud_has b) (eg_fr st)) as (fr1, out1).
-  pose proof (socket_egress_stream (eg_socks st) fr1 (eg_id st)
+  pose proof (ipv4_egress_stream (bud_has b) (eg_fr st) (eg_hw st) hist Hs) as H1.
+  destruct (eg_ipv4_egress ip_mtu (bud_has b) (eg_fr st) (eg_hw st)) as ((fr1, hw1), out1).
+  pose proof (socket_egress_stream (eg_socks st) fr1 hw1 (eg_id st)
                 (match out1 with [] => b | _ :: _ => bud_dec b end) _ H1 Hq) as H2.
-  destruct (eg_socket_egress ip_mtu fr1 (eg_id st) _ (eg_socks st))
-    as (((((fr2, id2), b2), socks2), out2), ch).
-  destruct H2 as (H2 & H3). unfold eg_inv. cbn [eg_fr eg_socks eg_rx].
+  destruct (eg_socket_egress ip_mtu fr1 hw1 (eg_id st) _ (eg_socks st))
+    as ((((((fr2, hw2), id2), b2), socks2), out2), ch).
+  destruct H2 as (H2 & H3). unfold eg_inv. cbn [eg_fr eg_hw eg_socks eg_rx].
   rewrite filter_app, app_assoc. repeat split; assumption.
 Qed.
 
 Lemma egress_loop_inv : forall fuel st b hist,
   eg_inv st hist ->
   let '(st', _, out) := eg_egress_loop fuel ip_mtu st b in
-  eg_inv st' (hist ++ filter p_is_fragment out).
+  eg_inv st' (hist ++ filter frame_is_fragment out).
 Proof.
   induction fuel as [|k IH]; intros st b hist Hi; cbn [eg_egress_loop].
   - cbn. rewrite app_nil_r. exact Hi.
@@ -607,13 +640,14 @@ Qed.
 Lemma poll_inv st b hist :
   eg_inv st hist ->
   let '(st', out) := eg_poll ip_mtu st b in
-  eg_inv st' (hist ++ filter p_is_fragment out).
+  eg_inv st' (hist ++ filter frame_is_fragment out).
 Proof.
   intros (Hs & Hq & Hr). unfold eg_poll.
-  pose proof (ingress_stream (eg_rx st) (eg_fr st) (eg_id st) b hist Hs Hr) as H1.
-  destruct (eg_ingress ip_mtu (eg_fr st) (eg_id st) b (eg_rx st)) as ((((fr1, id1), b1), rx1), out1).
+  pose proof (ingress_stream (eg_rx st) (eg_fr st) (eg_hw st) (eg_id st) b hist Hs Hr) as H1.
+  destruct (eg_ingress ip_mtu (eg_fr st) (eg_hw st) (eg_id st) b (eg_rx st))
+    as (((((fr1, hw1), id1), b1), rx1), out1).
   destruct H1 as (H1 & H1r).
-  assert (Hi1 : eg_inv (mkEg fr1 id1 (eg_socks st) rx1) (hist ++ filter p_is_fragment out1))
+  assert (Hi1 : eg_inv (mkEg fr1 hw1 id1 (eg_socks st) rx1) (hist ++ filter frame_is_fragment out1))
     by (repeat split; assumption).
   pose proof (egress_loop_inv (S (eg_queued (eg_socks st))) _ b1 _ Hi1) as H2.
   destruct (eg_egress_loop (S (eg_queued (eg_socks st))) ip_mtu _ b1) as ((st2, b2), out2).
@@ -622,15 +656,15 @@ Qed.
 
 Definition op_in_sub (op : eg_op) : Prop :=
   match op with
-  | ESend _ P => In P sub
-  | ERecv P => In P sub
+  | ESend _ d => In d sub
+  | ERecv d => In d sub
   | EPoll _ => True
   end.
 
-Lemma enqueue_in_sub : forall socks i P,
-  queues_in_sub socks -> In P sub -> queues_in_sub (eg_enqueue socks i P).
+Lemma enqueue_in_sub : forall socks i d,
+  queues_in_sub socks -> In d sub -> queues_in_sub (eg_enqueue socks i d).
 Proof.
-  induction socks as [|q rest IH]; intros i P Hq HP; cbn [eg_enqueue]; [constructor|].
+  induction socks as [|q rest IH]; intros i d Hq HP; cbn [eg_enqueue]; [constructor|].
   inversion Hq as [|? ? H1 H2]; subst. destruct i as [|j].
   - constructor; [|exact H2]. apply Forall_app. split; [exact H1 | constructor; [exact HP | constructor]].
   - constructor; [exact H1 | apply IH; assumption].
@@ -639,12 +673,12 @@ Qed.
 Lemma step_inv st op hist :
   eg_inv st hist -> op_in_sub op ->
   let '(st', out) := eg_step ip_mtu st op in
-  eg_inv st' (hist ++ filter p_is_fragment out).
+  eg_inv st' (hist ++ filter frame_is_fragment out).
 Proof.
   intros Hi Hop. destruct op as [i P | P | b]; cbn [eg_step op_in_sub] in *.
-  - destruct Hi as (Hs & Hq & Hr). cbn. rewrite app_nil_r. repeat split; cbn [eg_fr eg_socks eg_rx];
+  - destruct Hi as (Hs & Hq & Hr). cbn. rewrite app_nil_r. repeat split; cbn [eg_fr eg_hw eg_socks eg_rx];
       [exact Hs | apply enqueue_in_sub; assumption | exact Hr].
-  - destruct Hi as (Hs & Hq & Hr). cbn. rewrite app_nil_r. repeat split; cbn [eg_fr eg_socks eg_rx];
+  - destruct Hi as (Hs & Hq & Hr). cbn. rewrite app_nil_r. repeat split; cbn [eg_fr eg_hw eg_socks eg_rx];
       [exact Hs | exact Hq | apply Forall_app; split; [exact Hr | constructor; [exact Hop | constructor]]].
   - apply poll_inv. exact Hi.
 Qed.
@@ -652,7 +686,7 @@ Qed.
 Lemma run_inv : forall ops st hist,
   eg_inv st hist -> Forall op_in_sub ops ->
   let '(st', out) := eg_run ip_mtu st ops in
-  eg_inv st' (hist ++ filter p_is_fragment out).
+  eg_inv st' (hist ++ filter frame_is_fragment out).
 Proof.
   induction ops as [|op rest IH]; intros st hist Hi Hops; cbn [eg_run].
   - cbn. rewrite app_nil_r. exact Hi.
@@ -667,11 +701,11 @@ Qed.
 End EgressOrder.
 
 (* the datagrams an operation sequence hands to the stack *)
-Fixpoint ops_payloads (ops : list eg_op) : list (list Z) :=
+Fixpoint ops_payloads (ops : list eg_op) : list dgram :=
   match ops with
   | [] => []
-  | ESend _ P :: rest => P :: ops_payloads rest
-  | ERecv P :: rest => P :: ops_payloads rest
+  | ESend _ d :: rest => d :: ops_payloads rest
+  | ERecv d :: rest => d :: ops_payloads rest
   | EPoll _ :: rest => ops_payloads rest
   end.
 
@@ -686,44 +720,73 @@ Proof.
 Qed.
 
 (* C12 back_to_back_not_mixed: for every sequence of sends, ingress-triggered replies and polls
-   with any device budgets, the fragments on the wire are, in order, complete correct trains of
-   submitted datagrams followed by the part of the train in progress; and what the fragmenter
+   with any device budgets, the fragment frames on the wire are, in order, complete correct
+   trains of submitted datagrams -- every frame of a train addressed to the link-layer address
+   resolved for that datagram when it was admitted -- followed by the part of the train in
+   progress; the address stored in the fragmenter is that datagram's; and what the fragmenter
    will still send (one fragment per egress step) completes that train correctly. *)
 Lemma c12_back_to_back ip_mtu bufsize id0 nsocks ops :
   f4_hdr + 8 <= ip_mtu ->
   let '(st, out) := eg_run ip_mtu (eg_init bufsize id0 nsocks) ops in
   exists done cur,
-    filter p_is_fragment out = concat done ++ cur /\
-    Forall (fun t => exists ident P, In P (ops_payloads ops) /\ train_ok ip_mtu ident 0 t P) done /\
+    filter frame_is_fragment out = concat done ++ cur /\
+    Forall (fun t => exists ident d, In d (ops_payloads ops) /\
+                       ltrain_ok ip_mtu ident (fst d) 0 t (snd d)) done /\
     ((fr_finished (eg_fr st) = true /\ cur = []) \/
-     (exists P, In P (ops_payloads ops) /\ fr_finished (eg_fr st) = false /\
-        forall fuel, (length P <= fuel)%nat ->
-          train_ok ip_mtu (fr_ident (eg_fr st)) 0 (cur ++ f4_drain fuel ip_mtu (eg_fr st)) P)).
+     (exists d, In d (ops_payloads ops) /\ fr_finished (eg_fr st) = false /\
+        eg_hw st = fst d /\ Forall (fun f => fst f = fst d) cur /\
+        forall fuel, (length (snd d) <= fuel)%nat ->
+          train_ok ip_mtu (fr_ident (eg_fr st)) 0
+                   (map snd cur ++ f4_drain fuel ip_mtu (eg_fr st)) (snd d))).
 Proof.
   intros Hmtu.
   assert (Hi0 : eg_inv ip_mtu (ops_payloads ops) (eg_init bufsize id0 nsocks) []).
-  { unfold eg_inv, eg_init. cbn [eg_fr eg_socks eg_rx]. split; [|split; [|constructor]].
+  { unfold eg_inv, eg_init. cbn [eg_fr eg_hw eg_socks eg_rx]. split; [|split; [|constructor]].
     - exists [], []. split; [reflexivity|]. split; [constructor|]. left. split; reflexivity.
     - unfold queues_in_sub. apply Forall_forall. intros q Hq. apply repeat_spec in Hq. subst q. constructor. }
   pose proof (run_inv ip_mtu Hmtu (ops_payloads ops) ops _ [] Hi0 (ops_in_payloads ops)) as H.
   destruct (eg_run ip_mtu (eg_init bufsize id0 nsocks) ops) as (st, out).
   cbn [app] in H. destruct H as ((done & cur & Hh & Hdone & Hcur) & _ & _).
   exists done, cur. split; [exact Hh|]. split; [exact Hdone|].
-  destruct Hcur as [Hc | (P & off & HP & Hp & Hk)]; [left; exact Hc|].
-  right. exists P. split; [exact HP|]. split; [exact (progress_not_finished _ _ _ Hp)|].
+  destruct Hcur as [Hc | (d & off & HP & Hhw & Hp & Hall & Hk)]; [left; exact Hc|].
+  right. exists d. split; [exact HP|]. split; [exact (progress_not_finished _ _ _ Hp)|].
+  split; [exact Hhw|]. split; [rewrite <- Hhw; exact Hall|].
   intros fuel Hfuel. apply Hk. apply drain_train; [exact Hmtu | exact Hp|].
   destruct Hp as (_ & _ & _ & _ & Ho & _). unfold zlen. lia.
+Qed.
+
+(* a packet that is dropped (buffer too small, fragmenter busy) or emitted whole changes nothing
+   in the fragmenter, in particular not the stored link-layer address; only starting a train
+   stores the address resolved for that datagram *)
+Lemma dispatch_ip_hw ip_mtu ident fr hwst d :
+  let '(fr', hw', out, r) := eg_dispatch_ip ip_mtu ident fr hwst d in
+  Forall (fun f => fst f = fst d) out /\
+  (r <> DipFragStarted -> fr' = fr /\ hw' = hwst) /\
+  (r = DipFragStarted -> hw' = fst d) /\
+  (fr_finished fr = false -> r <> DipFragStarted).
+Proof.
+  unfold eg_dispatch_ip.
+  pose proof (dispatch_ip_busy_result ip_mtu ident fr (snd d)) as Hb.
+  assert (Hsame : snd (f4_dispatch_ip ip_mtu ident fr (snd d)) <> DipFragStarted ->
+                  fst (fst (f4_dispatch_ip ip_mtu ident fr (snd d))) = fr).
+  { unfold f4_dispatch_ip. cbv zeta. destruct (f4_hdr + zlen (snd d) >? ip_mtu); [|reflexivity].
+    destruct (zlen (fr_buffer fr) <? f4_hdr + zlen (snd d)); [reflexivity|].
+    destruct (negb (fr_finished fr)); [reflexivity|]. cbn [snd]. congruence. }
+  destruct (f4_dispatch_ip ip_mtu ident fr (snd d)) as ((fr', out), r). cbn [fst snd] in *.
+  split; [apply Forall_forall; intros f Hf; apply in_map_iff in Hf; destruct Hf as (p & <- & _); reflexivity|].
+  split; [intros Hr; split; [apply Hsame; exact Hr | destruct r; congruence]|].
+  split; [intros ->; reflexivity | exact Hb].
 Qed.
 
 (* a datagram leaves a socket only by being emitted whole, by starting its own fragment train on
    an idle fragmenter, or because it can never fit the fragmentation buffer; in particular a
    busy fragmenter never makes a socket lose a datagram *)
-Definition dequeued_ok (ip_mtu B : Z) (out : list ip4pkt) (q q' : list (list Z)) : Prop :=
+Definition dequeued_ok (ip_mtu B : Z) (out : list frame) (q q' : list dgram) : Prop :=
   q' = q \/
-  exists P, q = P :: q' /\
-    ((f4_hdr + zlen P <= ip_mtu /\ In (mkPkt 0 0 false P) out) \/
-     (ip_mtu < f4_hdr + zlen P /\ B < f4_hdr + zlen P) \/
-     (exists ident, In (mkPkt ident 0 true (firstn (Z.to_nat (f4_maxsz ip_mtu)) P)) out)).
+  exists d, q = d :: q' /\
+    ((f4_hdr + zlen (snd d) <= ip_mtu /\ In (fst d, mkPkt 0 0 false (snd d)) out) \/
+     (ip_mtu < f4_hdr + zlen (snd d) /\ B < f4_hdr + zlen (snd d)) \/
+     (exists ident, In (fst d, mkPkt ident 0 true (firstn (Z.to_nat (f4_maxsz ip_mtu)) (snd d))) out)).
 
 Lemma Forall2_impl' {A B} (R1 R2 : A -> B -> Prop) l l' :
   (forall a b, R1 a b -> R2 a b) -> Forall2 R1 l l' -> Forall2 R2 l l'.
@@ -748,43 +811,53 @@ Proof.
   - right. right. exists id. apply Hsub. exact H.
 Qed.
 
-Lemma socket_egress_conserves ip_mtu B : f4_hdr + 8 <= ip_mtu -> forall socks fr id b,
+Lemma eg_dispatch_ip_parts ip_mtu ident fr hwst d :
+  eg_dispatch_ip ip_mtu ident fr hwst d =
+  (fst (fst (f4_dispatch_ip ip_mtu ident fr (snd d))),
+   match snd (f4_dispatch_ip ip_mtu ident fr (snd d)) with DipFragStarted => fst d | _ => hwst end,
+   map (pair (fst d)) (snd (fst (f4_dispatch_ip ip_mtu ident fr (snd d)))),
+   snd (f4_dispatch_ip ip_mtu ident fr (snd d))).
+Proof. unfold eg_dispatch_ip. destruct (f4_dispatch_ip ip_mtu ident fr (snd d)) as ((fr', out), r). reflexivity. Qed.
+
+Lemma socket_egress_conserves ip_mtu B : f4_hdr + 8 <= ip_mtu -> forall socks fr hwst id b,
   zlen (fr_buffer fr) = B ->
-  let '(fr', _, _, socks', out, _) := eg_socket_egress ip_mtu fr id b socks in
+  let '(fr', _, _, _, socks', out, _) := eg_socket_egress ip_mtu fr hwst id b socks in
   zlen (fr_buffer fr') = B /\ Forall2 (dequeued_ok ip_mtu B out) socks socks'.
 Proof.
-  intros Hmtu. induction socks as [|q rest IH]; intros fr id b HB; cbn [eg_socket_egress].
+  intros Hmtu. induction socks as [|q rest IH]; intros fr hwst id b HB; cbn [eg_socket_egress].
   - split; [exact HB | constructor].
   - assert (Hrefl : forall l out, Forall2 (dequeued_ok ip_mtu B out) l l).
     { induction l; intros; constructor; [left; reflexivity | apply IHl]. }
-    destruct q as [|payload q'].
-    + specialize (IH fr id b HB).
-      destruct (eg_socket_egress ip_mtu fr id b rest) as (((((fr2, id2), b2), rest2), out2), ch).
+    destruct q as [|d q'].
+    + specialize (IH fr hwst id b HB).
+      destruct (eg_socket_egress ip_mtu fr hwst id b rest) as ((((((fr2, hw2), id2), b2), rest2), out2), ch).
       destruct IH as (IH1 & IH2). split; [exact IH1 | constructor; [left; reflexivity | exact IH2]].
-    + destruct (eg_needs_frag ip_mtu payload && negb (fr_finished fr)) eqn:Hbusy.
-      * specialize (IH fr id b HB).
-        destruct (eg_socket_egress ip_mtu fr id b rest) as (((((fr2, id2), b2), rest2), out2), ch).
+    + destruct (eg_needs_frag ip_mtu (snd d) && negb (fr_finished fr)) eqn:Hbusy.
+      * specialize (IH fr hwst id b HB).
+        destruct (eg_socket_egress ip_mtu fr hwst id b rest) as ((((((fr2, hw2), id2), b2), rest2), out2), ch).
         destruct IH as (IH1 & IH2). split; [exact IH1 | constructor; [left; reflexivity | exact IH2]].
       * destruct (negb (bud_has b)).
         -- split; [exact HB | apply Hrefl].
-        -- pose proof (dispatch_ip_buflen ip_mtu id fr payload) as Hlen.
-           assert (Hd : dequeued_ok ip_mtu B (snd (fst (f4_dispatch_ip ip_mtu id fr payload))) (payload :: q') q').
-           { right. exists payload. split; [reflexivity|].
+        -- pose proof (dispatch_ip_buflen ip_mtu id fr (snd d)) as Hlen.
+           assert (Hd : dequeued_ok ip_mtu B (map (pair (fst d)) (snd (fst (f4_dispatch_ip ip_mtu id fr (snd d))))) (d :: q') q').
+           { right. exists d. split; [reflexivity|].
              unfold eg_needs_frag in Hbusy.
-             destruct (Z_le_gt_dec (f4_hdr + zlen payload) ip_mtu) as [Hs | Hbig].
+             destruct (Z_le_gt_dec (f4_hdr + zlen (snd d)) ip_mtu) as [Hs | Hbig].
              - left. split; [exact Hs|]. rewrite dispatch_ip_small by exact Hs. left. reflexivity.
-             - destruct (Z_lt_ge_dec B (f4_hdr + zlen payload)) as [Htoo | Hfit].
+             - destruct (Z_lt_ge_dec B (f4_hdr + zlen (snd d))) as [Htoo | Hfit].
                + right. left. split; lia.
                + right. right. exists id.
                  assert (Hfin : fr_finished fr = true).
                  { destruct (fr_finished fr); [reflexivity|].
-                   replace (f4_hdr + zlen payload >? ip_mtu) with true in Hbusy by lia. discriminate. }
-                 destruct (dispatch_ip_start ip_mtu id fr payload Hmtu Hfin ltac:(lia) ltac:(lia)) as (fr' & Hd & _).
+                   replace (f4_hdr + zlen (snd d) >? ip_mtu) with true in Hbusy by lia. discriminate. }
+                 destruct (dispatch_ip_start ip_mtu id fr (snd d) Hmtu Hfin ltac:(lia) ltac:(lia)) as (fr' & Hd & _).
                  rewrite Hd. left. reflexivity. }
-           destruct (f4_dispatch_ip ip_mtu id fr payload) as ((fr1, out), r). cbn [fst snd] in *.
-           specialize (IH fr1 (eg_next_id id) (match out with [] => b | _ :: _ => bud_dec b end) ltac:(lia)).
-           destruct (eg_socket_egress ip_mtu fr1 (eg_next_id id) _ rest)
-             as (((((fr2, id2), b2), rest2), out2), ch).
+           destruct (eg_dispatch_ip ip_mtu id fr hwst d) as (((fr1, hw1), out), r) eqn:He.
+           rewrite eg_dispatch_ip_parts in He. inversion He; subst fr1 out; clear He.
+           match goal with |- context [eg_socket_egress ip_mtu ?f ?h ?i ?bb rest] =>
+             specialize (IH f h i bb ltac:(lia));
+             destruct (eg_socket_egress ip_mtu f h i bb rest) as ((((((fr2, hw2), id2), b2), rest2), out2), ch)
+           end.
            destruct IH as (IH1 & IH2). split; [exact IH1|]. constructor.
            ++ eapply dequeued_ok_mono; [|exact Hd]. intros p Hp. apply in_or_app. left. exact Hp.
            ++ eapply Forall2_impl'; [|exact IH2]. intros a c Hac.
@@ -792,33 +865,49 @@ Proof.
 Qed.
 
 (* pending fragments go first: a poll_egress pass with device capacity and a datagram in
-   progress starts by emitting that datagram's next fragment *)
+   progress starts by emitting that datagram's next fragment, to the stored address *)
 Lemma poll_egress_pending_first ip_mtu st b P off :
   f4_hdr + 8 <= ip_mtu -> fr_progress (eg_fr st) P off -> bud_has b = true ->
   let '(_, _, out, _) := eg_poll_egress ip_mtu st b in
-  exists rest, out = snd (f4_dispatch_ipv4_frag ip_mtu (eg_fr st)) :: rest.
+  exists rest, out = (eg_hw st, snd (f4_dispatch_ipv4_frag ip_mtu (eg_fr st))) :: rest.
 Proof.
-  intros Hmtu Hp Hb. unfold eg_poll_egress, f4_ipv4_egress.
+  intros Hmtu Hp Hb. unfold eg_poll_egress, eg_ipv4_egress, f4_ipv4_egress.
   rewrite (progress_not_finished _ _ _ Hp).
   pose proof Hp as (_ & Hpl & Hsb & _ & Ho0 & _ & Holt & _).
   assert (Hne : fr_is_empty (eg_fr st) = false).
   { unfold fr_is_empty. rewrite Hpl. pose proof (zlen_nonneg P). unfold f4_hdr, wipv4_HEADER_LEN. lia. }
   rewrite Hne, Hb. replace (fr_packet_len (eg_fr st) >? fr_sent_bytes (eg_fr st)) with true by lia.
-  cbn [andb]. destruct (f4_dispatch_ipv4_frag ip_mtu (eg_fr st)) as (fr', p). cbn [snd].
-  destruct (eg_socket_egress ip_mtu fr' (eg_id st) _ (eg_socks st)) as (((((fr2, id2), b2), socks2), out2), ch).
+  cbn [andb]. destruct (f4_dispatch_ipv4_frag ip_mtu (eg_fr st)) as (fr', p). cbn [snd map].
+  destruct (eg_socket_egress ip_mtu fr' (eg_hw st) (eg_id st) _ (eg_socks st))
+    as ((((((fr2, hw2), id2), b2), socks2), out2), ch).
   exists out2. reflexivity.
 Qed.
 
 (* non-vacuity / the D8 scenario: two 1200-byte datagrams queued back to back on one socket,
    Medium::Ip, MTU 576, polled until idle: six fragments, two complete trains, in order *)
 Definition c12_d8_ops : list eg_op :=
-  [ESend 0 (repeat 17 1208); ESend 0 (repeat 34 1208); EPoll None; EPoll None; EPoll None; EPoll None].
+  [ESend 0 (1, repeat 17 1208); ESend 0 (1, repeat 34 1208); EPoll None; EPoll None; EPoll None; EPoll None].
 
 Lemma c12_d8_example :
-  map (fun p => (p_ident p, p_offset p, p_mf p, zlen (p_payload p), hd 0 (p_payload p)))
+  map (fun f => (fst f, p_ident (snd f), p_offset (snd f), p_mf (snd f), zlen (p_payload (snd f)),
+                 hd 0 (p_payload (snd f))))
       (snd (eg_run 576 (eg_init cfg_FRAGMENTATION_BUFFER_SIZE 7 1) c12_d8_ops)) =
-  [(7, 0, true, 552, 17); (7, 552, true, 552, 17); (7, 1104, false, 104, 17);
-   (8, 0, true, 552, 34); (8, 552, true, 552, 34); (8, 1104, false, 104, 34)].
+  [(1, 7, 0, true, 552, 17); (1, 7, 552, true, 552, 17); (1, 7, 1104, false, 104, 17);
+   (1, 8, 0, true, 552, 34); (1, 8, 552, true, 552, 34); (1, 8, 1104, false, 104, 34)].
+Proof. vm_compute. reflexivity. Qed.
+
+(* a datagram to neighbour 1 mid-fragmentation under back-pressure (one frame per poll); an
+   oversized reply towards neighbour 2 arrives: it is dropped as a whole and the remaining
+   fragments of the first datagram still go to neighbour 1 *)
+Definition c12_two_neighbours_ops : list eg_op :=
+  [ESend 0 (1, repeat 17 1408); EPoll (Some 1); ERecv (2, repeat 51 1008);
+   EPoll (Some 1); EPoll (Some 1); EPoll None].
+
+Lemma c12_two_neighbours_example :
+  map (fun f => (fst f, p_ident (snd f), p_offset (snd f), p_mf (snd f), zlen (p_payload (snd f)),
+                 hd 0 (p_payload (snd f))))
+      (snd (eg_run 562 (eg_init cfg_FRAGMENTATION_BUFFER_SIZE 7 1) c12_two_neighbours_ops)) =
+  [(1, 7, 0, true, 536, 17); (1, 7, 536, true, 536, 17); (1, 7, 1072, false, 336, 17)].
 Proof. vm_compute. reflexivity. Qed.
 
 (* 1200-byte UDP payload (1208 bytes of IP payload) at MTU 576: three fragments *)
